@@ -17,6 +17,7 @@ branch; `if a or b:` gives both negated facts on the false branch.
 import ast
 
 from .core import FUNC, parent, names_in, assigned_names, norm, dotted
+from .core import clone as _clone
 
 
 def always_leaves(stmts):
@@ -117,9 +118,13 @@ def _block_of(node):
     return p, None, None
 
 
-def facts(node, stop=None):
+def facts(node, stop=None, expand_tests=False):
     """Must-facts at `node` (list of (expr, polarity)); stops at the enclosing
-    function (or at `stop`)."""
+    function (or at `stop`).  With expand_tests the local names of a statement-level test are first replaced by their
+    reaching definitions at the test (see expand_at), so that `v = x.items; if len(v) == 0: v = None; use` still yields
+    `len(x.items) == 0` at `use`; the returned expressions are then copies without parent links."""
+    def _xt(test, at):
+        return expand_at(test, at) if expand_tests else test
     out = []
     cur = node
     killed = set()  # names re-bound between the fact and the node
@@ -156,11 +161,11 @@ def facts(node, stop=None):
                     between = _mutated_names(before[k + 1:])
                     fs = []
                     if isinstance(s, ast.Assert):
-                        fs = split(s.test, True)
+                        fs = split(_xt(s.test, s), True)
                     elif isinstance(s, ast.If) and not s.orelse and always_leaves(s.body):
-                        fs = split(s.test, False)
+                        fs = split(_xt(s.test, s), False)
                     elif isinstance(s, ast.If) and s.orelse and always_leaves(s.orelse) and not always_leaves(s.body):
-                        fs = split(s.test, True)
+                        fs = split(_xt(s.test, s), True)
                         between = between | _mutated_names(s.body)
                     for (e, pol) in fs:
                         if not _hits(e, between | killed):
@@ -170,15 +175,15 @@ def facts(node, stop=None):
                 killed_here = _mutated_names(before)
                 if isinstance(owner, ast.If):
                     if field == "body":
-                        for (e, pol) in split(owner.test, True):
+                        for (e, pol) in split(_xt(owner.test, owner), True):
                             if not _hits(e, killed_here | killed):
                                 new.append((e, pol))
                     elif field == "orelse":
-                        for (e, pol) in split(owner.test, False):
+                        for (e, pol) in split(_xt(owner.test, owner), False):
                             if not _hits(e, killed_here | killed):
                                 new.append((e, pol))
                 elif isinstance(owner, ast.While) and field == "body":
-                    for (e, pol) in split(owner.test, True):
+                    for (e, pol) in split(_xt(owner.test, owner), True):
                         if not _hits(e, killed_here | killed):
                             new.append((e, pol))
                 killed |= killed_here
@@ -415,7 +420,72 @@ def expand(e, env, depth=0, at=None):
                 b = getattr(env, "stmt_of", {}).get(n.id)
                 return expand(env[n.id], env, depth + 1, at=(b if at is not None else None))
             return n
-    return _T().visit(copy.deepcopy(e))
+    return _T().visit(_clone(e))
+
+
+_NO_SUBST = (ast.Call, ast.ListComp, ast.GeneratorExp, ast.List, ast.Dict, ast.Set, ast.DictComp, ast.SetComp, ast.Lambda, ast.Yield, ast.Await)
+
+
+def reaching_def(name, at, calls=False):
+    """The expression the local `name` certainly stands for at node `at`, or None.  Syntax-directed reaching definition: the
+    nearest earlier sibling (of `at`'s statement or of one of its ancestors) that binds `name` must be a plain assignment
+    `name = expr`; nothing between it and `at` may re-bind `name` or a name mentioned in `expr`; a loop around `at` that re-binds
+    any of them anywhere in its body (back edge) gives None.  Returns (expr, binding statement)."""
+    from .core import parent
+    chain = _stmt_chain(at)
+    loops = []        # loops left behind on the way outwards: `at` runs once per iteration of each
+    for a, lst in chain:
+        if isinstance(a, (ast.For, ast.While, ast.AsyncFor)) and a is not at:
+            in_header = any(at is x or any(y is at for y in ast.walk(x)) for x in ([a.iter] if not isinstance(a, ast.While) else []))
+            if not in_header:
+                if _binds([a], {name}):
+                    return None       # bound somewhere in the loop: may reach `at` round the back edge
+                loops.append(a)
+        ia = next(i for i, x in enumerate(lst) if x is a)
+        for i in range(ia - 1, -1, -1):
+            st = lst[i]
+            if not _binds([st], {name}):
+                continue
+            val = None
+            if isinstance(st, ast.Assign) and len(st.targets) == 1:
+                t = st.targets[0]
+                if isinstance(t, ast.Name) and t.id == name:
+                    val = st.value
+                elif isinstance(t, (ast.Tuple, ast.List)) and isinstance(st.value, (ast.Tuple, ast.List)) and len(t.elts) == len(st.value.elts):
+                    for x, y in zip(t.elts, st.value.elts):
+                        if isinstance(x, ast.Name) and x.id == name:
+                            val = y
+            if val is None or (isinstance(val, _NO_SUBST) and not (calls and isinstance(val, ast.Call))):
+                return None
+            used = {x.id for x in ast.walk(val) if isinstance(x, ast.Name)}
+            if _binds(lst[i + 1:ia], used | {name}):
+                return None
+            # loops entered after the binding must not change what the expression mentions
+            if used and _binds([l for l in loops if not any(l is y for y in ast.walk(st))], used):
+                return None
+            return val, st
+    return None
+
+
+def expand_at(e, at, calls=False, depth=0):
+    """copy of `e` (evaluated at node `at`) with local names replaced by their reaching definitions, recursively"""
+    import copy
+
+    class _T(ast.NodeTransformer):
+        def visit_Name(self, n):
+            if isinstance(n.ctx, ast.Load) and depth < 8:
+                r = reaching_def(n.id, at, calls)
+                if r is not None:
+                    val, st = r
+                    # names of the definition are evaluated at the binding; they are unchanged up to `at` except through an
+                    # enclosing loop that re-binds them (checked by the recursive call from the binding statement)
+                    return expand_at(val, st, calls, depth + 1)
+            return n
+    return _T().visit(_clone(e))
+
+
+def xnorm_at(e, at, calls=False):
+    return norm(expand_at(e, at, calls))
 
 
 def xnorm(e, env, at=None):
